@@ -180,3 +180,20 @@ Definition dend_eqb (a b : dend) : bool :=
 Definition dispatch_kinds_ok : bool :=
   list_eqb (fun a b => list_eqb String.eqb (fst a) (fst b) && dend_eqb (snd a) (snd b))
            (map (fun c => (dc_types c, dc_end c)) Dispatch.dispatch) RefShapes.ref_dispatch.
+
+(* ---- Run's deferred calls, in the order they are registered (they run in the reverse order): the recovery of a panic -
+   which restores the terminal, termios included - is registered after the Close of a TTY that Run opened itself, so
+   that it runs BEFORE the descriptor is closed *)
+Definition run_defers : list string := map snd (filter (fun d => fst d =? "Run") ChanOps.defers).
+Fixpoint index_of (x : string) (l : list string) (i : nat) : option nat :=
+  match l with [] => None | y :: t => if String.prefix x y then Some i else index_of x t (S i) end.
+Fixpoint last_index_of (x : string) (l : list string) (i : nat) (acc : option nat) : option nat :=
+  match l with [] => acc | y :: t => last_index_of x t (S i) (if String.prefix x y then Some i else acc) end.
+Definition recover_registered_after_tty_close : bool :=
+  match index_of "func:recover" run_defers 0, last_index_of "f.Close" run_defers 0 None with
+  | Some r, Some c => Nat.ltb c r
+  | Some _, None => true
+  | None, _ => false
+  end.
+(* deferred calls run last-registered-first *)
+Definition exit_order (defers : list string) : list string := rev defers.
